@@ -114,24 +114,40 @@ class GenerateCentroids(Contract):
 
 # --------------------------------------------------------------------- process_lf (bounded)
 class GLabInst:
-    """sleap_io instance ghost: `.numpy()` (n_nodes, 2) points, `.is_empty` iff every coordinate is NaN."""
+    """sleap_io instance ghost.  As in sleap_io, the stored coordinates `points["xy"]` may be
+    finite for a node whose `points["visible"]` flag is False; `.numpy()` reports such nodes
+    (and nodes stored as NaN) as NaN; `.is_empty` iff no node is visible."""
 
     __pyvc_native__ = True
 
     def __init__(self, c, name, n_nodes, user=True):
-        self.points = c.tensor(name, [n_nodes, 2], FLOAT, nan_ok=True, kind="numpy")
-        rd = self.points.reader()
-        self.is_empty = V.b_and(*[V.f_isnan(rd([n, k])) for n in range(n_nodes) for k in range(2)])
+        self.raw = c.tensor(name + "_xy", [n_nodes, 2], FLOAT, nan_ok=True, kind="numpy")
+        self.vis = [c.bool("%s_visible%d" % (name, n)) for n in range(n_nodes)]
+        rr = self.raw.reader()
+
+        def fn(idx):
+            n, k = idx
+            if isinstance(n, int):
+                return V.f_ite(V.zbool(self.vis[n]), rr([n, k]), float("nan"))
+            v = float("nan")
+            for m in range(n_nodes):
+                v = V.f_ite(V.zbool(V.b_and(V.i_eq(n, m), self.vis[m])), rr([m, k]), v)
+            return v
+
+        self.labelled = T.from_fn([n_nodes, 2], FLOAT, fn, kind="numpy")     # what .numpy() returns
+        lr = self.labelled.reader()
+        self.is_empty = V.b_and(*[V.f_isnan(lr([n, k])) for n in range(n_nodes) for k in range(2)])
         self.user = user
+        self.points = {"xy": self.raw, "visible": T.from_flat([n_nodes], [V.zbool(v) for v in self.vis], BOOL, kind="numpy")}
 
     def numpy(self):
-        return self.points
+        return self.labelled
 
     def __pyvc_to_real__(self):
         from pyvc.concrete import to_real
         import numpy as np
 
-        pts = np.asarray(to_real(self.points), dtype="float64")
+        pts = np.asarray(to_real(self.labelled), dtype="float64")
 
         class I:
             is_empty = bool(np.isnan(pts).all())
@@ -224,7 +240,7 @@ class ProcessLf(Contract):
         if not isinstance(result, dict):
             return [("PL/returns-a-dict", False)]
         used = self._used(insts, user_only)
-        N = insts[0].points.shape[0]
+        N = insts[0].raw.shape[0]
         inst, img = result.get("instances"), result.get("image")
         if not (isinstance(inst, STensor) and inst.rank == 4 and isinstance(img, STensor) and img.rank == 4):
             return [("PL/instances-and-image-are-rank-4", False)]
@@ -248,7 +264,7 @@ class ProcessLf(Contract):
             vals = []
             if ok:
                 for k, i in enumerate(kept):
-                    pr = i.points.reader()
+                    pr = i.labelled.reader()
                     vals += [V.f_same(ir([0, k, nn, xy]), pr([nn, xy])) for nn in range(N) for xy in range(2)]
                 for k in range(n, rows):
                     vals += [V.f_isnan(ir([0, k, nn, xy])) for nn in range(N) for xy in range(2)]
